@@ -204,6 +204,34 @@ def run_enum_bases(ctx, quick):
     m.close()
 
 
+def run_adjacent_streams(ctx, quick):
+    """protocols in which stream steps follow each other directly (NDJSON has no end-of-stream marker: a reader learns that a stream has ended from
+    the next step's line, which it must keep): every combination of empty / non-empty streams, items that are null, between and before scalar steps"""
+    o32 = Opt(P("int32"))
+    pkg = Pkg("AdjStreams", [Proto("Adj3", [("subject", P("string")), ("a", S(P("int32"))), ("b", S(P("string"))), ("c", S(P("float64"))), ("count", P("uint32"))]),
+                             Proto("AdjOpt", [("a", S(o32)), ("b", S(o32)), ("maybe", o32), ("c", S(Opt(P("string")))), ("tail", Opt(P("string")))]),
+                             Proto("AdjOnly", [("a", S(P("int32"))), ("b", S(P("int32"))), ("c", S(P("int32")))])])
+    m = rt.prepare_model(ctx, "adjstreams", pkg, ["plain"])
+    if m is None:
+        raise Inconclusive("adjacent-streams model did not build")
+    cpp, py = rt.CppEndpoint(m, "plain"), rt.PyEndpoint(m)
+    from vlib.refcodec import f64
+    import itertools
+    for combo in itertools.product((0, 1, 3), repeat=3):
+        na, nb, nc = combo
+        cases = [("Adj3", ["s", list(range(na)), ["t%d" % i for i in range(nb)], [f64(i + 0.5) for i in range(nc)], 7]),
+                 ("AdjOpt", [[None if i % 2 == 0 else (0, i) for i in range(na)], [None] * nb, None if na else (0, 5), [None if i == 0 else (0, "x") for i in range(nc)], None]),
+                 ("AdjOnly", [list(range(na)), list(range(10, 10 + nb)), list(range(20, 20 + nc))])]
+        for pn, vals in cases:
+            proto = pkg.find(pn)
+            ctx.case(("adjacent-streams", pn, combo))
+            for f0, hops in (("ndjson", [(cpp, "bin")]), ("ndjson", [(py, "bin")]), ("bin", [(cpp, "ndjson"), (py, "bin")]), ("bin", [(py, "ndjson"), (cpp, "bin")]),
+                             ("ndjson", [(cpp, "ndjson"), (py, "ndjson")])):
+                chain(ctx, m, proto, vals, f0, hops, "adjacent streams %s with %s items" % (pn, combo), {"adjacent": True})
+                ctx.count("adjacent-streams.chains")
+    m.close()
+
+
 def run_multiarray(ctx):
     """records with several arrays whose items straddle the reader's 64 KiB refills: an array decoded before a refill must keep its values
     (it must not be a view of the reader's buffer)"""
@@ -341,6 +369,7 @@ def run(ctx):
     run_multiarray(ctx)
     run_record_arrays(ctx, quick)
     run_enum_bases(ctx, quick)
+    run_adjacent_streams(ctx, quick)
     run_union_matrix(ctx, quick)
     run_sweep(ctx, range(-12, 3) if not quick else range(-11, 2))
     run_big(ctx)
